@@ -162,17 +162,6 @@ def check_oriented(rec, mon, s, V, want_faces, mech, winfo):
         rec.check(mon + ":equations", good, mech + "/equations-not-refreshed", lambda: dict(winfo, equations=eq))
 
 
-_INDEX_FORMS = ("int64", "int32", "lists", "uint32", "uint8", "uint64", "int16")
-
-
-def index_form(rng, faces, nv):
-    """The face lists in one of the index types a caller's mesh may hold them in (a uint32 index buffer, int lists ...)."""
-    form = _INDEX_FORMS[int(rng.integers(len(_INDEX_FORMS)))]
-    if form == "lists" or (form == "uint8" and nv > 255):
-        return "lists", [[int(x) for x in f] for f in faces]
-    return form, [np.array([int(x) for x in f], dtype=form) for f in faces]
-
-
 def check_edges_general(rec, s, tag, winfo):
     """Edge list / count / Euler relation of a *general* Polyhedron that holds a convex surface (after sort_faces or
     merge_faces): each edge once as (i<j), exactly the pairs consecutive in some face; V-E+F=2; edge vectors match."""
@@ -286,7 +275,7 @@ def run_case(i, rng, rec, tier, state):
         kind = "convex" if c["kind"] == "convexcopy" else c["kind"]
         rec.cls("scramble:" + kind)
         info = {"mode": "sort_faces", "kind": c["kind"], "vertices": V2, "scrambled_faces": sf}
-        iform, sfx = index_form(rng, sf, len(V2))
+        iform, sfx = gen.index_form(rng, sf, len(V2))
         rec.cls("face-index-type:" + iform)
         info["face_index_type"] = iform
         try:
@@ -336,7 +325,7 @@ def run_case(i, rng, rec, tier, state):
     tris = [tris[t] for t in order]
     rec.cls("merge:convex")
     info = {"mode": "merge_faces", "vertices": P, "triangles": tris}
-    iform, trx = index_form(rng, tris, len(P))
+    iform, trx = gen.index_form(rng, tris, len(P))
     rec.cls("face-index-type:" + iform)
     info["face_index_type"] = iform
     try:
